@@ -870,37 +870,16 @@ func (schema *Schema) IsEmpty() bool {
 		schema.MinProps != 0 || schema.MaxProps != nil {
 		return false
 	}
-	if n := schema.Not; n != nil && n.Value != nil && !n.Value.IsEmpty() {
-		return false
-	}
-	if ap := schema.AdditionalProperties.Schema; ap != nil && ap.Value != nil && !ap.Value.IsEmpty() {
+	// A schema with sub-schemas is not treated as empty, even when these are empty themselves:
+	// `not: {}` rejects everything, `oneOf: [{}, {}]` matches twice, and an empty sub-schema
+	// still rejects null.
+	if schema.Not != nil || schema.Items != nil || len(schema.Properties) != 0 ||
+		schema.AdditionalProperties.Schema != nil ||
+		len(schema.OneOf) != 0 || len(schema.AnyOf) != 0 || len(schema.AllOf) != 0 {
 		return false
 	}
 	if apa := schema.AdditionalProperties.Has; apa != nil && !*apa {
 		return false
-	}
-	if items := schema.Items; items != nil && items.Value != nil && !items.Value.IsEmpty() {
-		return false
-	}
-	for _, s := range schema.Properties {
-		if ss := s.Value; ss != nil && !ss.IsEmpty() {
-			return false
-		}
-	}
-	for _, s := range schema.OneOf {
-		if ss := s.Value; ss != nil && !ss.IsEmpty() {
-			return false
-		}
-	}
-	for _, s := range schema.AnyOf {
-		if ss := s.Value; ss != nil && !ss.IsEmpty() {
-			return false
-		}
-	}
-	for _, s := range schema.AllOf {
-		if ss := s.Value; ss != nil && !ss.IsEmpty() {
-			return false
-		}
 	}
 	return true
 }
